@@ -311,7 +311,9 @@ func (p *c20) Init(tier string, seed int64) {
 	p.nNamed = len(c20Broken) * 7
 }
 
-func (p *c20) N() int { return p.nPos + p.nInj + p.nTrunc + p.nNamed + len(c20Marked)*len(c20MarkedPrefixes) }
+func (p *c20) N() int {
+	return p.nPos + p.nInj + p.nTrunc + p.nNamed + len(c20Marked)*len(c20MarkedPrefixes)
+}
 
 // c20Marked: sources with one wrong token each - a word in the place of a keyword, one token too many inside an
 // interpolation, a tag's parts in the wrong order. The mark (\x01, removed) stands in front of the first token that
@@ -653,6 +655,28 @@ func (p *c20) Run(i int) (res fw.Result) {
 		}
 		res.AddObs("error_positions_checked", 1)
 		res.UniqueNT = 1
+		if strings.HasPrefix(what, "illegal character") {
+			// the same place with every other character that no token can begin with: ASCII punctuation that is no
+			// operator, control characters, and characters beyond ASCII that are neither letters nor digits
+			for _, alt := range c20IllegalChars {
+				src2 := src[:off] + alt + src[off+1:]
+				key2 := fmt.Sprintf("%s:alt%q", key, alt)
+				in2 := map[string]interface{}{"source": src2, "injected": fmt.Sprintf("%s, character %q", what, alt)}
+				res.Evals++
+				_, err2 := parse.Parse(src2)
+				if err2 == nil {
+					res.Fail("accepted", key2, fmt.Sprintf("%s: with the character %q in place of '@' the source is accepted without error", what, alt), in2)
+					continue
+				}
+				if l, c, ok := errPosition(err2); !ok {
+					res.Fail("no-position", key2, fmt.Sprintf("%s (character %q): the error %q carries no position (want line %d, column %d)", what, alt, err2, wl, wc), in2)
+				} else if l != wl || c != wc {
+					res.Fail("wrong-error-position", key2, fmt.Sprintf("%s (character %q) at line %d, column %d, but the error is located at line %d, column %d: %v", what, alt, wl, wc, l, c, err2), in2)
+				}
+				res.AddObs("error_positions_checked", 1)
+			}
+			res.AddClass("injection-illegal-alternates")
+		}
 	case i < p.nPos+p.nInj+p.nTrunc:
 		j := i - p.nPos - p.nInj
 		k := searchOffs(p.truncOffs, j)
@@ -697,6 +721,9 @@ func (p *c20) Run(i int) (res fw.Result) {
 	}
 	return
 }
+
+// c20IllegalChars: characters that cannot begin a token of an expression (the injection workload's '@' is the first).
+var c20IllegalChars = []string{"$", "&", ";", "\\", "^", "`", "!", "#", "\x7f", "\x08", "\x1b", "§", "€", "\u00a0", "½", "²", "\u2028", "\u200b", "\U0001F600", "´", "¬", "×", "÷"}
 
 // truncErrorPlace says what stands at the position a truncation error reports.
 func truncErrorPlace(prefix string, line, col int) string {
